@@ -41,7 +41,7 @@ def run(c):
         c.sample({"request": k, "impl": v[:500]})
     c.cov["search"] = "Lean monitor checkCall on the real glue trees (call/return counts, canonical arguments, canonical results, parameter-record frees)"
     c.cov["partial_obligations"] = [
-        "one_call / results_ok / free_once / glue_value_correct as theorems about Abi.call: open; enforced by the checkCall monitor on the real trees",
+        "glue theorems cover functions passed entirely flat with memory-free types; indirect parameters, return areas, async glue (task.return), list-bearing types and free_once: open as theorems; enforced by the checkCall monitor on the real trees",
     ]
     c.assumptions += ["wit-parser's wasm_signature is external: modelled (Abi.wasmSignature), compared on every function, and proved equal to the spec's flatten_functype",
                       "values cross CallWasm/CallInterface through scripted callee results (the callee side is the spec)"]
